@@ -6,6 +6,8 @@ package etcd
 // every behaviour that is observed comes from the package's own code.
 
 import (
+	"time"
+
 	clientv3 "go.etcd.io/etcd/client/v3"
 
 	"github.com/dfklegend/cell2/node/cluster"
@@ -34,3 +36,18 @@ func (p *Provider) VerifWatch(stream clientv3.WatchChan) error { return p._keepW
 
 // VerifSelf returns the provider's own node (nil before init).
 func (p *Provider) VerifSelf() *Node { return p.self }
+
+// VerifNewWithClient builds a Provider like NewWithConfig around a given client value (the
+// harness plugs in-memory KV/Lease/Watcher stand-ins into it), with a lease already granted,
+// so that the exported StartMember / Shutdown can be run as they are.
+func VerifNewWithClient(c *clientv3.Client) *Provider {
+	return &Provider{
+		client:        c,
+		leaseID:       77,
+		keepAliveTTL:  3 * time.Second,
+		retryInterval: 1 * time.Second,
+		baseKey:       "/cell2",
+		members:       map[string]*Node{},
+		cancelWatchCh: make(chan bool),
+	}
+}
